@@ -21,6 +21,8 @@ structure Parsed where
   more : Bool
   frames : List Msg
   hold : Bool := false            -- the service keeps the connection open after the frames
+  color : String := "off"         -- on | off | auto | absent
+  outTty : Bool := false          -- the tool's stdout is a terminal
 
 def parseArgs : Sx → Option (Option (Option Json))
   | .atom "-" => some none
@@ -29,14 +31,16 @@ def parseArgs : Sx → Option (Option (Option Json))
   | _ => none
 
 def parseCase : Sx → Option Parsed
-  | .list (.atom "cli" :: .atom form :: listen :: url :: args :: .atom more :: _ :: .list (.atom "frames" :: fs) :: _) => do
+  | .list (.atom "cli" :: .atom form :: listen :: url :: args :: .atom more :: .atom color :: .list (.atom "frames" :: fs) :: opts) => do
     let listen ← asStr listen
     let url ← asStr url
     let args ← parseArgs args
     let isHold : Sx → Bool := fun f => match f with | .atom "hold" => true | _ => false
     let hold := fs.any isHold
-    let fs ← (fs.filter fun f => !isHold f).mapM ClientDrv.parseFrame
-    pure { form, listen, url, args, more := more == "t", frames := fs.flatten, hold }
+    let isCuts : Sx → Bool := fun f => match f with | .list (.atom "cuts" :: _) => true | _ => false
+    let fs ← (fs.filter fun f => !isHold f && !isCuts f).mapM ClientDrv.parseFrame
+    let outTty := opts.any fun o => match o with | .list [.atom "tty", .atom "t", _] => true | _ => false
+    pure { form, listen, url, args, more := more == "t", frames := fs.flatten, hold, color, outTty }
   | _ => none
 
 /-- `varlink_connect` drops `;parameters` of unix addresses -/
@@ -49,12 +53,21 @@ def ofReport : Option Cli.Report → Sx
   | some (.named n ps) => .list [.atom "named", strAtom n, ofOptJson ps]
   | some .failed => .atom "failed"
 
-def obs (conns : Nat) (resolver : Option String) (log : List Request) (out : List Json) (exit : Sx) (report : Sx) : Sx :=
+/-- does the coloured rendering of a value contain an escape sequence?  Keys and scalars are painted,
+    brackets are not (the `Styler` of main.rs 262-275) -/
+partial def painted : Json → Bool
+  | .arr l => l.any painted
+  | .obj l => l.any fun kv => kv.1 != "" || painted kv.2
+  | .str s => s != ""          -- painting the empty text emits nothing
+  | _ => true
+
+def obs (conns : Nat) (resolver : Option String) (log : List Request) (out : List Json) (exit : Sx) (report : Sx)
+    (colour : Bool := false) : Sx :=
   .list [.atom "cli-obs", .list [.atom "conns", .atom (toString conns)],
     .list [.atom "decoy", .atom "0"],
     .list [.atom "resolver", ofOptStr resolver],
     .list (.atom "log" :: log.map ClientDrv.ofReq),
-    .list (.atom "stdout" :: out.map ofJson), .atom "t", exit, report]
+    .list (.atom "stdout" :: out.map ofJson), .atom "t", ofBool (colour && out.any painted), exit, report]
 
 def msg (c : String) : Sx := .list [.atom "msg", .atom c]
 
@@ -66,7 +79,9 @@ def runCase (c : Parsed) : Sx :=
     | args =>
       let a : Option Json := match args with | some (some j) => some j | _ => none
       let o := Cli.runCall peer {} method a c.more
-      obs 1 resolver o.wire.log o.stdout (if o.hang then .atom "hung" else .atom (toString o.exit)) (ofReport o.report)
+      -- main.rs 608-613: `on`, `off`, otherwise "is stdout a terminal"
+      let colour := c.color == "on" || (c.color != "off" && c.outTty)
+      obs 1 resolver o.wire.log o.stdout (if o.hang then .atom "hung" else .atom (toString o.exit)) (ofReport o.report) colour
   match Cli.split c.url with
   | .invalid => obs 0 none [] [] (.atom "1") (msg "invalid-address")
   | .direct a m =>
@@ -93,10 +108,14 @@ def parseReport : Sx → Option (Option Cli.Report × Bool)
 def pred (cs os : Sx) : Cli.Verdict :=
   match parseCase cs, os with
   | some c, .list [.atom "cli-obs", .list [.atom "conns", n], .list [.atom "decoy", dn], _, .list (.atom "log" :: log),
-                   .list (.atom "stdout" :: docs), clean, exit, report] =>
+                   .list (.atom "stdout" :: docs), clean, esc, exit, report] =>
     match asNat n, docs.mapM toJson, parseReport report with
     | some n, some docs, some (rep, other) =>
       if asNat dn != some 0 then some "call-went-to-a-neighbouring-service (argument not split at the last slash)" else
+      -- stdout that is not a terminal (and no --color on) must carry plain JSON, whatever stderr is
+      if render esc == "t" && c.color != "on" && !c.outTty then
+        some "stdout-is-not-plain-json (colour escapes although stdout is not a terminal and --color is not on)" else
+      if render esc == "t" && c.color == "off" then some "colour-escapes-on-stdout-with---color-off" else
       let (lg, raw) := ClientDrv.parseLog log
       match c.args with
       | some none => if docs.isEmpty && asNat exit != some 0 then none else some "output-or-exit-0-with-unparsable-arguments"
